@@ -79,6 +79,7 @@ type FnCtx struct {
 	anchorsSeen map[string]bool
 	probe       bool
 	blockWrites map[int]*NameSet
+	blockWritesAll map[int]*NameSet
 	curBlock    int
 	sentinels   []Val
 	inlineDepth int
@@ -88,6 +89,16 @@ type FnCtx struct {
 }
 
 func (fc *FnCtx) recordWrite(name string) {
+	if fc.blockWritesAll != nil {
+		// loop write sets need every write, including those to objects allocated by this function
+		// (an object allocated before a loop and written inside it carries state across iterations)
+		ns := fc.blockWritesAll[fc.curBlock]
+		if ns == nil {
+			ns = newNameSet()
+			fc.blockWritesAll[fc.curBlock] = ns
+		}
+		ns.Add(name)
+	}
 	if fc.blockWrites == nil || fc.noRecord {
 		return
 	}
@@ -100,6 +111,14 @@ func (fc *FnCtx) recordWrite(name string) {
 }
 
 func (fc *FnCtx) recordWrites(hs *NameSet) {
+	if fc.blockWritesAll != nil && hs != nil {
+		ns := fc.blockWritesAll[fc.curBlock]
+		if ns == nil {
+			ns = newNameSet()
+			fc.blockWritesAll[fc.curBlock] = ns
+		}
+		ns.AddAll(hs)
+	}
 	if fc.blockWrites == nil || hs == nil {
 		return
 	}
